@@ -35,11 +35,11 @@ MC_INVARIANTS = ("FTypeOK", "Agree", "ExclusionIsDivergence", "CacheTransparent"
 MC_ACTIONS = ("FRead", "FSample", "FNormalize", "FSizeMatch", "FSizeMatchPad", "FResize", "FPadToStride", "FCentroid", "FCrop",
               "FOverCrop", "FReCrop", "FReCropScaled", "FCache", "FChunk8", "FConfmaps", "FMultiConfmaps", "FPAFs", "Restart")
 GRID = dict(quick=("{17, 45, 64}", "{32, 64}", "{8, 32}", "{0, 3}"),
-            thorough=("{17, 32, 45, 64}", "{17, 32, 45, 64}", "{1, 8, 16, 32}", "{0, 1, 3}"))
+            thorough=("{17, 32, 45, 64}", "{17, 32, 45, 64}", "{1, 8, 32}", "{0, 3}"))
 TRACE_CFG = "INIT Init\nNEXT Next\nCONSTRAINT Check\nPOSTCONDITION Report\nCHECK_DEADLOCK FALSE\n"
 
 SCALES = ((1, 2), (3, 4), (1, 1), (3, 2))
-FAMILIES = ("plain", "stray_empty_instance", "frame_only_empty_instances")
+FAMILIES = ("plain", "stray_empty_instance", "frame_only_empty_instances", "with_predicted_instances")
 BLOCK_TOL = 1e-6
 
 
@@ -74,12 +74,23 @@ def make_job(rng, model, scale, family, jid):
     elif family == "frame_only_empty_instances":  # a labelled frame whose instances are all empty
         h, w = sizes[0]
         frames.insert(rng.randrange(len(frames) + 1), dict(video=0, hw=[h, w], instances=[[None] * n_nodes]))
+    user_only = True
+    if family == "with_predicted_instances":      # predicted instances next to the user-labelled ones, with either filter setting
+        user_only = rng.choice([True, False])
+        for f in frames:
+            if rng.random() < 0.7 and model != "single_instance":
+                h, w = f["hw"]
+                f["predicted"] = [_rand_instance(rng, h, w, n_nodes) for _ in range(rng.choice([1, 2]))]
+        if model == "single_instance":            # a prediction for the one animal; only meaningful with the user filter on
+            user_only = True
+            h, w = frames[0]["hw"]
+            frames[0]["predicted"] = [_rand_instance(rng, h, w, n_nodes)]
     mode = rng.choice(["max", "max", "fixed", "big", "small"])
     max_hw = {"max": [max(s[0] for s in sizes), max(s[1] for s in sizes)], "fixed": [64, 64], "big": [80, 96],
               "small": [24, 40]}[mode]
     cfg = dict(is_rgb=rng.choice([True, False]), max_hw=max_hw, sn=scale[0], sd=scale[1], max_stride=rng.choice([1, 8, 16, 32]),
                sigma=rng.choice([1.5, 2.5]), output_stride=rng.choice([1, 2, 4]), anchor=rng.choice([None] + list(range(n_nodes))),
-               crop=rng.choice([16, 24, 32]), paf_sigma=rng.choice([2.0, 4.0]), paf_stride=rng.choice([2, 4]))
+               crop=rng.choice([16, 24, 32]), paf_sigma=rng.choice([2.0, 4.0]), paf_stride=rng.choice([2, 4]), user_only=user_only)
     return dict(jid=jid, model=model, family=family, seed=rng.randrange(1 << 30), n_nodes=n_nodes, ch=ch, dtype=dtype,
                 frames=frames, cfg=cfg)
 
@@ -98,7 +109,14 @@ def build_labels(job):
             img = r.uniform(0, 1, size=(h, w, job["ch"])).astype("float32")
         insts = [np.array([[np.nan, np.nan] if p is None else p for p in inst], dtype="float64") for inst in f["instances"]]
         frames.append(dict(image=img, instances=insts, video=f["video"]))
-    return make_labels(frames, n_nodes=job["n_nodes"])
+    labels = make_labels(frames, n_nodes=job["n_nodes"])
+    from harness.shim import predicted_instance
+
+    for lf, f in zip(labels.labeled_frames, job["frames"]):
+        for inst in f.get("predicted", []):
+            pts = np.array([[np.nan, np.nan] if p is None else p for p in inst], dtype="float64")
+            lf.instances.append(predicted_instance(pts, score=0.8, skeleton=labels.skeletons[0]))
+    return labels
 
 
 def _frame_of(job, video_idx, frame_idx):
@@ -115,7 +133,8 @@ def _kp0(job, frame, occurrence, n_points_observed):
     """Labels of the frame in the spec's terms <<x64, y64, visible, animal, node>> (centered: the cropped animal only),
     padded with invisible animals up to the number of points the dataset returned."""
     nn = job["n_nodes"]
-    real = [inst for inst in frame["instances"] if any(p is not None for p in inst)]
+    every = list(frame["instances"]) + ([] if job["cfg"].get("user_only", True) else list(frame.get("predicted", [])))
+    real = [inst for inst in every if any(p is not None for p in inst)]
     if job["model"] == "centered_instance":
         real = real[occurrence:occurrence + 1]
     rows = []
@@ -136,7 +155,7 @@ def run_job(job, base_id):
     model, c = job["model"], job["cfg"]
     rc = dict(is_rgb=c["is_rgb"], max_hw=tuple(c["max_hw"]), scale=c["sn"] / c["sd"], max_stride=c["max_stride"], sigma=c["sigma"],
               output_stride=c["output_stride"], anchor=c["anchor"], crop_hw=(c["crop"], c["crop"]), paf_sigma=c["paf_sigma"],
-              paf_stride=c["paf_stride"])
+              paf_stride=c["paf_stride"], user_only=c.get("user_only", True))
     outs, raised = {}, []
     for fw in fu.FRAMEWORKS:
         try:
@@ -438,7 +457,7 @@ def run(tier, seed):
     for k, v in bnotes.items():
         res.clause(k, v)
     for b in BLOCKS:
-        if b != "SizeMatcher" and bnotes.get("block_agrees_" + b, 0) + sum(1 for cid, _ in brej if cases[cid]["block"] == b) != nb:
+        if b != "SizeMatcher" and bnotes.get("block_judged_" + b, 0) != nb:
             raise TLCError("block %s: not every case was judged as demanded" % b)
     for cid, clause in brej:
         c = cases[cid]
